@@ -923,7 +923,9 @@ XML_CHARS = ["a", " ", "<", "&", ">", "'", '"', "]", u"é"]
 XML_NASTY = ["&amp;", "&lt;b&gt;", "<![CDATA[x]]>", "]]>", "</part-name>", "<!-- c -->", "&#38;", u"aé中", "<?pi?>",
              "Sonata in <C> & 'D' \"minor\"",
              # characters beyond the basic multilingual plane, and at its edges (all legal in XML 1.0)
-             u"\U0001D11E clef", u"violin \U0001F3BB", u"\U00010000\U0010FFFF", u"\uD7FF\uE000\uFFFD", u"tab\there"]
+             u"\U0001D11E clef", u"violin \U0001F3BB", u"\U00010000\U0010FFFF", u"\uD7FF\uE000\uFFFD", u"tab\there",
+             # characters that str.splitlines() treats as line ends
+             u"a\u2028b", u"a\u2029b", u"a\u0085b", u"two\n\nlines"]
 LY_NASTY = ["Sonata in <C> & 'D'", "%{ x %}", "} {", "a = b", "header {", "c'4 <e g>"]
 
 
